@@ -537,7 +537,9 @@ class _Run:
         if oldp is not None and via is not None:
             self.flags["reparent"] = True
             self.classes.add("reparent")
-            trigger = m.state[moved] == "P" and m.has(via, "delete-orphan") and m.insession(oldp)
+            # a not-yet-persistent object changing parents in one step through a delete-orphan relationship (it may also become pending
+            # and its old parent may be pulled back into the session by this very operation's save-update cascade)
+            trigger = m.state[moved] in ("P", "T") and m.has(via, "delete-orphan")
             if trigger and not pinned:
                 # known finding: one-step move of a pending object between delete-orphan parents; generate it as detach + attach
                 self.excluded.append("one-step re-parenting of a pending object between delete-orphan parents (known finding)")
@@ -760,12 +762,13 @@ class _Run:
                 got = {l for l in links if l[0] == k[1] and ("tag", l[1]) not in doomed and ("tag", l[1]) in insess_before}
                 if got != want:
                     raise Violation("C39/db/parent_tag", f"{where}: association rows of {k} are {sorted(got)}, expected {sorted(want)}", observed=sorted(got), expected=sorted(want))
-        # 3. raw orphan invariant for delete + delete-orphan relationships
+        # 3. raw orphan invariant for delete + delete-orphan relationships (rows that existed before this flush: a pending orphan that
+        #    the application add()s again explicitly is inserted by design, see "legacy_is_orphan" notes in the 0.8 migration guide)
         for r, child_t, fk, parent_t in (("children", "child", "parent_id", "parent"), ("grandchildren", "grandchild", "child_id", "child")):
             if {"delete", "delete-orphan"} <= set(self.cascades[r]):
                 bad = self.rc.execute(f"SELECT c.id FROM {child_t} c LEFT JOIN {parent_t} p ON c.{fk} = p.id WHERE p.id IS NULL").fetchall()
                 rev = RELS[r][3]
-                bad = [b[0] for b in bad if (child_t, b[0]) in before and before[(child_t, b[0])] in ("S", "D", "P") and self._ever_parented((child_t, b[0]), r, rel_before)
+                bad = [b[0] for b in bad if (child_t, b[0]) in before and before[(child_t, b[0])] in ("S", "D") and self._ever_parented((child_t, b[0]), r, rel_before)
                        and (rel_before.get(((child_t, b[0]), rev)) is None or rel_before[((child_t, b[0]), rev)] in insess_before)]
                 if bad:
                     raise Violation(f"C39/invariant/{r}/orphan-row", f"{where}: {child_t} rows {bad} have no parent row although {r} is delete + delete-orphan", observed=bad, expected=[])
@@ -892,4 +895,4 @@ def _cases(draw):
 
 
 def subs(tier):
-    return [Generated("histories", check, strategy=_cases(), quick=1500, thorough=60000)]
+    return [Generated("histories", check, strategy=_cases(), quick=1200, thorough=60000)]
